@@ -55,6 +55,10 @@ def run(ctx):
     for f in files:
         raw = bytes.fromhex(f["hex"])
         ms = mutants(rng, raw, ctx.quick)
+        # the unmutated file through every entry point as well
+        for name, mk in ENTRY:
+            lines.append("dops %s %d %s" % (f["dt"], rng.choice([1, 30, 31, 100000]), mk(raw.hex(), rng)))
+            info.append((f["desc"], "identity", name))
         for kind, m in ms:
             name, mk = ENTRY[rng.below(len(ENTRY))]
             lim = rng.choice([1, 2, 29, 30, 31, 1000, 100000])
@@ -74,8 +78,9 @@ def run(ctx):
     past = 0
     for line, (desc, kind, entry), a in zip(lines, info, ans):
         toks = D.split_tokens(a) if a not in ("died", "timeout") else []
-        nontriv = any(b.startswith("ok flags") or b.startswith("flags") or "n=" in b for b, _ in toks)
-        ctx.case("%s %s via %s" % (kind, desc, entry), ["past-header"] if nontriv else [])
+        nontriv = any(b.startswith("ok flags") or b.startswith("flags") or b.startswith("ok meta") or "last=footer" in b or
+                      (b.startswith("drained n=") and not b.startswith("drained n=0 ")) or b.startswith("ok n=") for b, _ in toks)
+        ctx.case("%s %s via %s #%s" % (kind, desc, entry, C.sha(line)), ["past-header"] if nontriv else [])
         ctx.count("mutation:" + kind); ctx.count("entry:" + entry)
         for b, _ in toks:
             if b.startswith("err "):
@@ -87,5 +92,6 @@ def run(ctx):
     if ctx.model_ok:
         sample = [i for i in range(len(lines)) if rng.chance(1, 3 if ctx.quick else 2) and ans[i] not in ("died", "timeout") and "panic" not in ans[i]]
         # keep the model's work bounded: skip mutants for which the implementation produced millions of numbers
-        sample = [i for i in sample if not any(int(x) > 300000 for x in __import__("re").findall(r"n=(\\d+)", ans[i]))]
-        D.compare_dops(ctx, lines, ans, "dops(hostile)", sample=sample, timeout=900)
+        # (a forged 24-bit count makes the model build lists of millions of numbers: implementation-only cases)
+        sample = [i for i in sample if info[i][1] != "count" and not any(int(x) > 300000 for x in __import__("re").findall(r"n=(\d+)", ans[i]))]
+        D.compare_dops(ctx, lines, ans, "dops(hostile)", sample=sample, timeout=240)
